@@ -123,7 +123,7 @@ def presented (a : AdfSt) (perm order : List Nat) : String × String :=
   let co := showSetC (Spec.completeAll n tts)
   let sb := showSetC (Spec.stableAll n tts)
   let m2 := showSetC (Spec.models2 n tts)
-  (eq, s!"grounded={gr} complete={co} stable={sb} twoval={m2} biogrounded={gr} biocomplete={co} biostable={sb}")
+  (eq, s!"grounded={gr} complete={co} stable={sb} twoval={m2} biogrounded={gr} biocomplete={co} biostable={sb} biorew={sb} biorew2={sb} natrew={sb} hybpre={sb}")
 
 def orderCheck (n : Nat) (sort : String) (perm : List Nat) (labels : List String) (order : List Nat) : String :=
   if order.length != n || !(List.range n).all (fun i => order.contains i) then "violated not-a-permutation"
